@@ -125,3 +125,9 @@ PROPS["C15"] = {"components": ["http"], "monitor_props": ["C15"], "trusted_base"
     "assumptions": ["a body has at most one fault (serde reports the first problem it meets; which one is first depends on the key order, not modelled)",
                     "the internal API answers success or one of the six gRPC codes of its four public handlers and does not abort (C11 covers the handlers)"],
     "partial": "for request bodies that do not fall in one of the modelled fault categories (arbitrary bytes, several faults at once) the answer is checked on the real router by monitors only (documented status, JSON error with a documented code, never 255, tower dump unchanged), not proved; 'promptly' is measured (3 s bound)."}
+
+PROPS["C16"] = {"components": ["wire"], "monitor_props": ["C16"], "trusted_base": TB_HTTP + [
+        "the translator of build.rs / the .proto files / appointment.rs / receipts.rs / the plugin's net/http.rs into Gen/Wire.lean (field adapters, messages, status names, signed layouts, ApiResponse variants): regenerated on every run; its reading is validated by comparing the model's printed JSON / hex / layouts with the real serialisers line by line",
+        "serde_json's printing and parsing of strings and numbers, prost-generated struct definitions (both sides compile the same generated types)"],
+    "assumptions": ["field values are byte strings, u32 numbers and signature strings without characters that need JSON escaping (zbase32)"],
+    "partial": "round trips are proved for the adapters (hex, reversed hex, vectors of hex, status names, be32) and injectivity for the signed layouts; the JSON object layer (key lookup, number/strings printing) is serde_json's and is compared, not proved; 'every request the client can emit is parsed by the tower into the same field values' is checked end-to-end on histories sent by the client's real code, not proved."}
